@@ -8,6 +8,7 @@ import (
 	"encoding/json"
 	"fmt"
 	"os"
+	"sync"
 	"time"
 
 	kio "github.com/flanglet/kanzi-go/v2/io"
@@ -24,14 +25,14 @@ type rStep struct {
 }
 
 type rExp struct {
-	Counter    int            `json:"counter"`
-	Rpc        string         `json:"rpc"`
-	OutLen     int            `json:"outlen"`
-	Ret        map[string]any `json:"ret"`
+	Counter    int               `json:"counter"`
+	Rpc        string            `json:"rpc"`
+	OutLen     int               `json:"outlen"`
+	Ret        map[string]any    `json:"ret"`
 	Tpc        map[string]string `json:"tpc"`
-	BatchFirst int            `json:"batchFirst"`
-	ErrSeen    bool           `json:"errSeen"`
-	EofSeen    bool           `json:"eofSeen"`
+	BatchFirst int               `json:"batchFirst"`
+	ErrSeen    bool              `json:"errSeen"`
+	EofSeen    bool              `json:"eofSeen"`
 }
 
 type rCfg struct {
@@ -380,18 +381,42 @@ func cmdReplayReader(args []string) int {
 	sc.Buffer(make([]byte, 1<<20), 1<<28)
 	bw := bufio.NewWriter(out)
 	defer bw.Flush()
+	par := 8
+	if len(args) > 4 {
+		fmt.Sscan(args[4], &par)
+	}
+	type job struct {
+		n int
+		s *rScenario
+	}
+	jobs := make(chan job, 64)
+	var mu sync.Mutex
+	var wg sync.WaitGroup
+	for w := 0; w < par; w++ {
+		wg.Add(1)
+		go func() {
+			defer wg.Done()
+			for j := range jobs {
+				r := replayReaderOne(j.s, realB, seed+int64(j.n), 5*time.Second)
+				b, _ := json.Marshal(r)
+				mu.Lock()
+				bw.Write(b)
+				bw.WriteByte('\n')
+				mu.Unlock()
+			}
+		}()
+	}
 	n := 0
 	for sc.Scan() {
-		var s rScenario
-		if err := json.Unmarshal(sc.Bytes(), &s); err != nil {
+		s := &rScenario{}
+		if err := json.Unmarshal(sc.Bytes(), s); err != nil {
 			fmt.Fprintln(os.Stderr, "bad scenario:", err)
 			return 2
 		}
-		r := replayReaderOne(&s, realB, seed+int64(n), 5*time.Second)
-		b, _ := json.Marshal(r)
-		bw.Write(b)
-		bw.WriteByte('\n')
+		jobs <- job{n, s}
 		n++
 	}
+	close(jobs)
+	wg.Wait()
 	return 0
 }
